@@ -44,6 +44,13 @@ MACROS = (
     # calls an earlier macro whose parameter is called p with ANOTHER of its own parameters, and uses its own p
     # afterwards (a binding that leaks out of the inner call shows here)
     A.macro("m8", ("p", "r"), A.seq(A.gate("m", "r"), A.gate("g2", "p", "r"), A.gate("m", "p"))),
+    # a register parameter indexed by another parameter
+    A.macro("m9", ("r", "i"), A.seq(A.gate("g", A.item("r", "i")), A.gate("h", A.item("r", 0), "i"))),
+    # parameterless macros: the only nested macro call sits inside a loop / inside a parallel block inside a loop
+    A.macro("m10", (), A.seq(A.loop(2, A.seq(A.gate("m", A.item("q", 0)))))),
+    A.macro("m11", (), A.par(A.gate("g", A.item("q", 2)), A.seq(A.loop("k", A.par(A.gate("m9", "a", 1)))))),
+    # forwards its register parameter to a macro that indexes it by a parameter; and a body that is one loop
+    A.macro("m12", ("r",), A.seq(A.loop("n", A.seq(A.gate("m9", "r", "k"))))),
 )
 
 LEAVES = (
@@ -63,6 +70,22 @@ LEAVES = (
     A.gate("m4", 1, 0),  # a second call of m4 with other numbers
     A.gate("m8", A.item("q", 0), "c"),
 )
+
+# second leaf menu (added later; combined with a few leaves of the first in `EXTRA_SPECS`, so that the pools of the
+# first menu keep their size)
+LEAVES2 = (
+    A.gate("m9", "a", 1),
+    A.gate("m9", "q", "k"),
+    A.gate("m10"),
+    A.gate("m11"),
+    A.gate("m12", "b"),
+)
+
+
+def extra_specs(tier):
+    if tier == "quick":
+        return [dict(max_nodes=2, leaves=LEAVES2 + LEAVES[:1]), dict(max_nodes=3, min_nodes=3, leaves=LEAVES2[::2], loops=("n",), subs=(None,))]
+    return [dict(max_nodes=3, leaves=LEAVES2 + LEAVES[:2]), dict(max_nodes=4, min_nodes=4, leaves=LEAVES2[::2], loops=("n",), subs=(None,))]
 
 
 # ---------------------------------------------------------------- legal nesting
@@ -207,9 +230,11 @@ def small_programs(max_nodes, leaves=LEAVES, loops=(2, "n"), subs=(None, "n"), h
 
 
 # ---------------------------------------------------------------- deviations
+MACROS_BASE = MACROS[:8]  # the base programs keep the first eight macros: every macro body is a deviation site
+
 BASE = A.prog(
     HEADER_RICH,
-    MACROS
+    MACROS_BASE
     + (
         A.gate("g", A.item("q", 0)),
         A.seq(A.gate("h", "c", "x"), A.par(A.gate("g", A.item("a", 1)), A.gate("m", A.item("q", 1)))),
@@ -224,7 +249,7 @@ BASE = A.prog(
 # shadowing parameters, an alias captured by a parameter name, nested loops, a parallel block of macro calls)
 BASE2 = A.prog(
     HEADER_RICH,
-    MACROS
+    MACROS_BASE
     + (
         A.par(A.gate("m4", 1, 0), A.seq(A.gate("g", A.item("q", 1)), A.gate("m6", 1))),
         A.loop(2, A.seq(A.loop("k", A.par(A.gate("m5", "c", 2, 0.5), A.gate("g", A.item("b", 0)))), A.gate("h", A.item("q", "n"), "n"))),
